@@ -21,13 +21,13 @@ import (
 )
 
 func (dec *Decoder) readUnsafeBytes() []byte {
-	bytes := dec.UnsafeNext(dec.ReadInt())
+	bytes := dec.UnsafeNext(dec.ReadCount())
 	dec.Skip()
 	return bytes
 }
 
 func (dec *Decoder) readBytes() []byte {
-	bytes := dec.Next(dec.ReadInt())
+	bytes := dec.Next(dec.ReadCount())
 	dec.Skip()
 	return bytes
 }
@@ -42,7 +42,7 @@ func (dec *Decoder) ReadBytes() []byte {
 }
 
 func (dec *Decoder) readUint8Slice(et reflect.Type) []byte {
-	count := dec.ReadInt()
+	count := dec.ReadCount()
 	slice := make([]byte, count)
 	dec.AddReference(slice)
 	for i := 0; i < count; i++ {
